@@ -41,11 +41,13 @@ CLAIMED = {
             'positions: per-month energy of the emitted sequence equals the month net load.',
             'peak durations arbitrary in (0,48] (stub of perform_current_month_simulation); numpy replaced by an exact list facade; division '
             'by quotient variables; one known finding (1 January same-day pulses with a duration > 26 h).', '3/C06', None),
-    'C07': ('Decidable part only: pulses present with the month peak magnitude, sign, length = duration, centred/abutting noon; no pulse and '
+    'C07': ('Pulses present with the month peak magnitude, sign, length = duration, centred/abutting noon; no pulse and '
             'degenerate duration where there is no load; single average segment outside the retention window; monthly peak/day equal the raw '
-            'profile; 48 h window indices for every peak day.',
-            'NOT claimed: that computed durations lie in (0,48] and satisfy the Cullin-Spitler equivalence (numerical g_sts, extrapolating '
-            'interp1d); the duration is an arbitrary value in (0,48] here.', '3/C07', None),
+            'profile; 48 h window indices for every peak day. Durations: 0 < d <= 48 h and finite through the real find_peak_durations / '
+            'perform_current_month_simulation / simulate_hourly for concrete g-functions of real boreholes (1 quick, 2 thorough) and one symbolic '
+            'load magnitude per unit (peak or previous-day load, catalogue of months/days/base profiles).',
+            'NOT claimed: the Cullin-Spitler equivalence itself (numerical g_sts); duration bound for load shapes / boreholes outside the '
+            'catalogue. interp1d by contract; in the pulse units the duration is an arbitrary value in (0,48].', '3/C07', None),
     'C08': ('Axis starts at 0, has every month end (independent closed-form calendar), ends at the horizon, replicates year-1 values, and is '
             'strictly increasing under the stated premise - for all symbolic monthly tables; calendar helpers for every month index 1..360.',
             'as C06; single-year load files only', '3/C08', None),
